@@ -408,3 +408,76 @@ pub fn gen_c04(tier: &str, seed: u64) -> Vec<Vec<String>> {
     }
     cases
 }
+
+/// C11: histories in direct mode; every (point, occurrence) of one operation becomes a kill
+pub fn gen_c11(tier: &str, seed: u64) -> Vec<Vec<String>> {
+    let mut root = Rng::new(seed ^ 0xC11);
+    let mut cases = Vec::new();
+    let nhist = n_cases(tier, 6, 60);
+    let points = ["write.before", "write.after", "open.before", "open.after", "rename.before", "rename.after", "rot.infix_chosen", "rot.opened", "rot.mounted",
+        "cleanup.remove.before", "cleanup.remove.after", "compress.create.before", "compress.created", "compress.copied", "compress.finished", "compress.removed", "symlink.removed"];
+    let mut k = 0;
+    for hno in 0..nhist {
+        let mut r = root.fork();
+        let naming = NAMINGS[(hno % 4) as usize];
+        let (spec, has_suffix) = gen_spec(&mut r, naming);
+        let n: u64 = *r.pick(&[0, 5, 16]);
+        let cleanup = match hno % 3 { 0 => "never".to_string(), 1 => "1,1".to_string(), _ => format!("{},{}", r.below(3), r.below(2)) };
+        let cleanup = if !has_suffix && cleanup != "never" { "1,0".to_string() } else { cleanup };
+        let symlink = r.chance(1, 3);
+        let rot = Some(format!("{n};_;{naming};{cleanup}"));
+        let cfg0 = format!("CFG {}", cfg_line(&rot, false, None, symlink, has_suffix));
+        let mut clock = Clock::new(&mut r);
+        // the common prefix of the history
+        let mut prefix: Vec<String> = Vec::new();
+        let mut seq = 0;
+        for _ in 0..r.range(2, 8) {
+            prefix.push(format!("W {} {} -", hex(&record(seq, r.range(1, 24))), clock.tick(&mut r)));
+            seq += 1;
+        }
+        // (1) the points of the next write, observed and compared with the model's trace
+        let victim = hex(&record(seq, r.range(2, 24)));
+        let vnow = clock.tick(&mut r);
+        {
+            let mut c = vec![format!("CASE flw C11 {k}"), spec.clone(), cfg0.clone()];
+            k += 1;
+            c.extend(prefix.iter().cloned());
+            c.push(format!("WP {victim} {vnow}"));
+            c.push(format!("RP {vnow}"));
+            c.push("SNAP".into());
+            c.push("END".into());
+            cases.push(c);
+        }
+        // (2) one case per (point, occurrence) of the victim write and of a forced rotation
+        for (pi, p) in points.iter().enumerate() {
+            for occ in 0..3u64 {
+                if tier != "thorough" && occ > 0 && !(p.starts_with("cleanup") || p.starts_with("compress")) { continue; }
+                for forced in [false, true] {
+                    if forced && (p.starts_with("write") || (tier != "thorough" && (pi + hno as usize) % 2 == 0)) { continue; }
+                    let mut c = vec![format!("CASE flw C11 {k}"), spec.clone(), cfg0.clone()];
+                    k += 1;
+                    c.extend(prefix.iter().cloned());
+                    if forced { c.push(format!("CROT {vnow} {p} {occ}")); } else { c.push(format!("CW {victim} {vnow} {p} {occ}")); }
+                    c.push("SNAP".into());
+                    c.push("LINK".into());
+                    // a newly started logger on the same directory
+                    let append = r.chance(1, 2);
+                    let mut cl2 = Clock { epoch: clock.epoch + *r.pick(&[0i64, 1, 70]) };
+                    c.push(format!("RESTART {}", cfg_line(&rot, append, None, symlink, has_suffix)));
+                    let mut s2 = seq + 1;
+                    for _ in 0..r.range(1, 5) {
+                        c.push(format!("W {} {} -", hex(&record(s2, r.range(1, 24))), cl2.tick(&mut r)));
+                        s2 += 1;
+                    }
+                    c.push("ERRS".into());
+                    c.push("READ".into());
+                    c.push("SNAP".into());
+                    c.push("LINK".into());
+                    c.push("END".into());
+                    cases.push(c);
+                }
+            }
+        }
+    }
+    cases
+}
